@@ -193,3 +193,21 @@ def add_ospath(reg):
     reg.specfuns['rstrip_slash'] = rs
     reg.assumptions.append('E-PATH: os.path.normpath removes every "."/".." segment and repeated separators of an '
                            'absolute POSIX path (its result has no trailing separator unless it is the root); symlinks ignored')
+
+
+def add_strfuns(reg):
+    """A-STR: bytes.lower() and bytes.split() (no separator) as uninterpreted functions with the
+    axioms the properties need."""
+    low = SpecFun('lower', ['bytes'], 'bytes')
+    low.unfold = lambda s: [z3.Length(low.decl(s)) == z3.Length(s), low.decl(low.decl(s)) == low.decl(s)]
+    reg.specfuns['lower'] = low
+    ws = SpecFun('wsplit', ['bytes'], ('list', 'bytes'))
+    reg.specfuns['wsplit'] = ws
+
+    def wsplit(ex, st, args, kwargs, fr):
+        o = args[0]
+        lst = st.alloc(HList('bytes', ws.decl(o.t)))
+        return ex.val(lst, st)
+    reg.externs['wsplit'] = wsplit
+    reg.assumptions.append('A-STR: bytes.lower and bytes.split() (whitespace split) are uninterpreted functions; '
+                           'lower is idempotent and length preserving')
